@@ -683,6 +683,12 @@ def main():
                     manual.append("type-alias %s=%s @%s" % (m.group(1), re.sub(r"\s+", "", m.group(2)), rel))
             for m in re.finditer(r'\buse\s+[^;]*\bas\s+(u8|u16|u32|u64|usize|Vec|vec)\b', mtext):
                 manual.append("use-as %s @%s" % (m.group(1), rel))
+            # the model has ONE behaviour, whatever the build profile, the wall clock, the environment or the thread: every construct that
+            # can make the code behave differently under those is listed (none in the tree the model was written against)
+            for m in re.finditer(r'\b(debug_assert(?:_eq|_ne)?!|debug_assertions|overflow_checks|Instant|SystemTime|UNIX_EPOCH|Duration|std::time|core::time|'
+                                 r'std::env|option_env!|env!|thread::sleep|std::fs|std::net|std::process|available_parallelism|ThreadId|thread::current|'
+                                 r'TypeId|type_name|target_pointer_width|target_endian|target_os|target_arch|catch_unwind|AtomicU?\w*|Ordering::Relaxed|OnceLock|OnceCell|Lazy\w*|lazy_static!|thread_local!|static\s+mut)\b', mtext):
+                manual.append("environment-dependent %s @%s" % (re.sub(r"\s+", " ", m.group(1)), rel))
             if rel == os.path.join("src", "lib.rs"):
                 for m in re.finditer(r'((?:#\[[^\]]*\]\s*)*)(pub(?:\([^)]*\))?\s+)?mod\s+(\w+)\s*([;{])', mtext):
                     attrs = re.sub(r"\s+", "", text[m.start(1):m.end(1)]) if len(mtext) == len(text) else "?"
